@@ -517,6 +517,9 @@ def run(model, col, tier):
     for k, v in seen.items():
         col.check(v, "R10.2", f"{TYPES}::Scope.FindFunction outcome {k}", "present and correct",
                   f"outcome `{k}` is missing or wrong: " + "; ".join(problems), TYPES, ff)
+    # ... on *every* path of its kind (a second path of the same kind with another outcome is not excused by the first)
+    col.check(not problems, "R10.2", f"{TYPES}::Scope.FindFunction every path has its outcome", "no path of any kind ends differently",
+              "; ".join(sorted(set(problems))[:3]) + ": e.g. a tie that is only sometimes reported binds the call to whichever candidate was registered first", TYPES, ff)
     rf = sc.own_method("RegisterFunction")
     from ..sem import local_env as _le, rtext as _rt
 
@@ -779,7 +782,7 @@ def check_import_loops(model, col, rule):
     ctv_ = model.cls(CT, "ComputeTypeVisitor")
     sites.append((CT, ctv_, expand_helpers(model, ctv_, ctv_.own_method("v_Module"), skip=("v_", "__RegisterFunction", "_ComputeTypeVisitor__RegisterFunction"))))
     lk_ = model.cls("nsl/LinearIR.py", "Linker")
-    sites.append(("nsl/LinearIR.py", lk_, expand_helpers(model, lk_, lk_.own_method("Link"))))
+    sites.append(("nsl/LinearIR.py", lk_, expand_helpers(model, lk_, lk_.own_method("Link"), skip=("v_", "AddModule"))))
     n = 0
     for rel, ci, f in sites:
         env = local_env(f, allow_impure=True)
@@ -790,10 +793,13 @@ def check_import_loops(model, col, rule):
             n += 1
             var = lp.target.id
             skipped = None
+            dropped = None
             for evs, status in paths(lp.body, loop_iters=(0, 1)):
                 if status == "raise":
                     continue
                 if any(c in loads for c in calls_on_path(evs)):
+                    if ci.name == "Linker" and not any(last_attr(c) in ("AddModule", "_Linker__AddModule", "__AddModule") for c in calls_on_path(evs)):
+                        dropped = dropped or [(k[:60], v) for k, v in cond_atoms(evs, env).items()][:3]
                     continue
                 a = cond_atoms(evs, env)
                 own = [k for k, v in a.items() if v is True and k.replace(" ", "").startswith(f"{var}in")]
@@ -802,6 +808,10 @@ def check_import_loops(model, col, rule):
             col.check(skipped is None, rule, f"{rel}::{ci.name}.{f.name} loads every imported module", f"each `{var}` is loaded unless `{var}` itself was seen before",
                       f"under {skipped} the module named by `{var}` is not loaded although that name was not seen before: two different modules are taken for one, and the functions of "
                       "the second never become overload candidates / never reach the program", rel, lp)
+            if ci.name == "Linker":
+                col.check(dropped is None, rule, f"{rel}::{ci.name}.{f.name} merges every module it loads", "every path that loads an import hands it to AddModule",
+                          f"under {dropped} the loaded module is not merged into the program: its functions and globals are missing from the link result, and the imports it names "
+                          "are never followed", rel, lp)
     col.floor(rule, "import loops", n, 2)
 
 
